@@ -12,6 +12,7 @@ mod lexer;
 mod nodes;
 mod decode;
 mod values;
+mod lines;
 mod imm;
 mod memloc;
 
@@ -31,6 +32,8 @@ fn main() {
         Some("ops-scalar-op") => ops::scalar_op(&v),
         Some("ops-search") => ops::search(&v),
         Some("values-search") => values::search(&v),
+        Some("lines-search") => lines::search(&v),
+        Some("decode-finding") => decode::finding(args.get(1).map(String::as_str).unwrap_or("")),
         Some("decode-search") => decode::search(&v),
         Some("getany-search") => nodes::getany_search(&v),
         Some("genkill-search") => nodes::genkill_search(&v),
